@@ -30,7 +30,7 @@ func init() {
 		Rule: "case = a small batch of byte strings, each fed to EVERY public decode/unmarshal/universal entry point (one-shot functions from bytes and from readers, unmarshalers, decoders with receivers " +
 			"rules+null, rules+builder and bare builder, Marshal.EnforceRules on and off) with templates nil, []interface{}, map[string]int, struct, *int, string; input families: empty, all 256 one-byte strings, " +
 			"two-byte strings (quick: every 16th block, thorough: all 65536) with and without a valid header in front, random bytes, byte-mutated valid CBE/CTE, truncations, inflated length fields in every header kind, " +
-			"nesting to 200000 (CBE) / 20000 (CTE) levels, CTE token soup, extreme numbers (exponents to +-(2^31-1), coefficients around 2^63/2^64/10^20, megabit integers) unmarshaled into every numeric template kind, documents with long strings / media types / identifiers / arrays / nesting under configurations with low resource limits (rules on and off); plus marshaling of supported and unsupported Go kinds. Each call runs in a worker process: observed outcomes are normal return (required), " +
+			"nesting to 200000 (CBE) / 20000 (CTE) levels, CTE token soup, extreme numbers (exponents to +-(2^31-1), coefficients around 2^63/2^64/10^20, megabit integers) unmarshaled into every numeric template kind, documents with long strings / media types / identifiers / arrays / nesting under configurations with low resource limits (rules on and off), self-referential documents (a marked container holding a reference to itself, further references landing in scalar destinations) with recursive references allowed or rules off; plus marshaling of supported and unsupported Go kinds. Each call runs in a worker process: observed outcomes are normal return (required), " +
 			"escaped panic, process death (fatal error / OOM under RLIMIT_AS 4 GiB), runtime deadlock report, CPU budget exceeded. Non-trivial = input of >= 2 bytes that is not accepted; distinct = distinct inputs.",
 		Assumptions: []string{"a call that returns (value, error) in any combination is fine; only how it returns is judged", "CPU budget 60 s per batch of calls on one input (inputs are <= 600 KB)"},
 		Cases:       func(tier string) int { return c07OneByteCases + c07TwoByteCases + tierN(tier, 1500, 40000) },
@@ -38,7 +38,7 @@ func init() {
 		MemLimit:    4 << 30,
 		CPUBudget:   60,
 		Floors: func(tier string) map[string]int64 {
-			return map[string]int64{"calls": 50000, "inputs": 1500, "family.mutated-cbe": 100, "family.mutated-cte": 100, "family.inflated": 50, "family.deep": 4, "family.marshal": 50, "family.extreme-number": 50, "family.low-limits": 50, "outcome.error": 10000, "outcome.value": 1000}
+			return map[string]int64{"calls": 50000, "inputs": 1500, "family.mutated-cbe": 100, "family.mutated-cte": 100, "family.inflated": 50, "family.deep": 4, "family.marshal": 50, "family.extreme-number": 50, "family.low-limits": 50, "family.self-referential": 20, "outcome.error": 10000, "outcome.value": 1000}
 		},
 	})
 }
@@ -299,6 +299,10 @@ func runC07(c *fw.Ctx, idx int) {
 		}
 		c07Numbers(c)
 	case 10:
+		if (idx-c07OneByteCases-c07TwoByteCases)/12%3 == 0 {
+			c07Recursive(c)
+			return
+		}
 		c07LowLimits(c)
 	default:
 		c07Marshal(c)
